@@ -57,7 +57,7 @@ type mutant struct {
 	noPrefixOtherBase   bool // #NrDDD prefix omitted for bases other than 2, 8, 10, 16
 	noBackslashEscape   bool // \ inside strings not escaped
 	rankWithRadix       bool // array rank printed through the integer printer (radix applies)
-	spaceCharRaw        bool // #\Space printed as "#\ "
+	ctrlCharLowNibble   bool // control characters printed as #\u000X (high nibble lost)
 	singleMarkerDropped bool // single-float printed with the e marker
 	wrapDropsDot        bool // a dotted list that is wrapped over several lines loses its dot
 	semicolonNoPipes    bool // ';' missing from the needs-quoting table
@@ -69,7 +69,7 @@ var mutants = []mutant{
 	{name: "radix prefix omitted for bases other than 2/8/10/16", noPrefixOtherBase: true},
 	{name: "backslash inside strings not escaped", noBackslashEscape: true},
 	{name: "array rank printed with the radix marker", rankWithRadix: true},
-	{name: "#\\Space printed as a raw blank", spaceCharRaw: true},
+	{name: "control characters printed with the high hex digit lost", ctrlCharLowNibble: true},
 	{name: "single-float printed with exponent marker e", singleMarkerDropped: true},
 	{name: "dotted list loses its dot when wrapped over lines", wrapDropsDot: true},
 	{name: "';' missing from the symbol needs-quoting table", semicolonNoPipes: true},
@@ -250,12 +250,12 @@ func refAtom(v *val, c cfg, m *mutant, inPrettyList bool) string {
 		return b.String()
 	case kChar:
 		if name, ok := refCharNames[v.c]; ok {
-			if v.c == ' ' && m.spaceCharRaw {
-				return `#\ `
-			}
 			return `#\` + name
 		}
 		if v.c < 0x20 {
+			if m.ctrlCharLowNibble {
+				return fmt.Sprintf(`#\u%04x`, v.c&0xf)
+			}
 			return fmt.Sprintf(`#\u%04x`, v.c)
 		}
 		return `#\` + string(v.c)
